@@ -31,7 +31,8 @@ PROBES = ['frozen_copy_of_prefetching_pipeline', 'iterator_created_before_anothe
           'copy_of_every_dataset_subclass_with_non_default_parameters',
           'frozen_copy_of_live_dataset', 'one_generator_shared_by_stages',
           'adversary_step_inside_an_epoch', 'prefetch_pool_variant_ran',
-          'prefetch_single_variant_ran', 'random_stage_below_other_stages']
+          'prefetch_single_variant_ran', 'random_stage_below_other_stages',
+          'refused_request_between_epochs']
 BUDGET = {
     'quick': {'families': 5000, 'wall_cap': 420, 'shrink_s': 12},
     'thorough': {'families': 50000, 'wall_cap': 5400, 'shrink_s': 30},
@@ -300,6 +301,14 @@ def gen(rng, tier, index):
             ops.insert(rng.randrange(0, len(ops) + 1),
                        rng.choice([['reseed', rng.randrange(1 << 16)],
                                    ['advance', rng.randrange(1, 6)]]))
+        if rng.random() < 0.3 and not any(s_['op'] == 'apply' for s_ in desc['stages']):
+            # (a lazy apply stage runs its function - which may draw - for every
+            # request, also for one that is refused in the end: not generated)
+            # requests the pipeline refuses (items() without keys, an absent key,
+            # an index far outside, len() of an unsized pipeline), made on one of
+            # the plain variants between its iterations: a refusal draws nothing
+            for _ in range(rng.randrange(1, 3)):
+                ops.insert(rng.randrange(0, len(ops) + 1), ['refused', rng.choice(['B', 'C'])])
         cases.append({'desc': desc, 'epochs': epochs, 'variants': variants, 'pf': pf,
                       'ops': ops, 'sched_seed': rng.randrange(1 << 30),
                       'gseed': rng.randrange(1 << 16)})
@@ -475,6 +484,24 @@ def run(case):
                     fired['global_advance'] = fired.get('global_advance', 0) + 1
                     if any(v.in_epoch() for v in vs.values()):
                         probes['adversary_step_inside_an_epoch'] = 1
+                elif op == 'refused':
+                    v = vs.get(arg)
+                    if v is not None and not v.in_epoch() and not v.error:
+                        refusals = 0
+                        reqs = [lambda d: d['__no_such_key__'], lambda d: d[10 ** 9],
+                                lambda d: len(d)]
+                        if desc['source']['kind'] == 'list':
+                            # nothing in the pipeline has keys: items() is refused
+                            # before anything is delivered
+                            reqs.insert(0, lambda d: next(iter(d.items())))
+                        for req in reqs:
+                            try:
+                                req(v.ds)
+                            except BaseException:
+                                refusals += 1
+                        if refusals:
+                            fired['refused_request'] = fired.get('refused_request', 0) + refusals
+                            probes['refused_request_between_epochs'] = 1
                 elif op == 'next':
                     if arg in vs:
                         vs[arg].step()
